@@ -678,6 +678,9 @@ func (c *trCtx) externalFn(fobj *types.Func, x *ast.CallExpr) string {
 // returnMutCall: `return f(…)` where the translated callee assigns through pointer/map parameters (`return prc.Insert(…)`): the
 // arguments are rebound to the new values first, the remaining components are the returned values
 func (c *trCtx) returnMutCall(x *ast.ReturnStmt, call *ast.CallExpr, tf *trFunc, recv ast.Expr) trLines {
+	if s := c.writerSynth(call); s != nil {
+		call = s
+	}
 	nres := tf.obj.Type().(*types.Signature).Results().Len()
 	if nres != c.nresults {
 		trFail(x.Pos(), "return of a call with %d results from a function with %d results is outside the subset", nres, c.nresults)
